@@ -44,7 +44,7 @@ func c06Keywords() []namedVal {
 func c06Operators() []namedVal {
 	return []namedVal{{"Eq", stackage.Eq}, {"Ge", stackage.Ge}, {"ComparisonOperator(0)", stackage.ComparisonOperator(0)}, {"ComparisonOperator(9)", stackage.ComparisonOperator(9)},
 		{"nil", nil}, {"user(~=,ctx)", userOp{"~=", "ctx"}}, {"sliceOp(=~,ctx)", sliceOp{"=~", "ctx"}}, {"(*ComparisonOperator)(nil)", (*stackage.ComparisonOperator)(nil)}, {"user(,ctx)", userOp{"", "ctx"}}, {"user(~=,)", userOp{"~=", ""}},
-		{"mapOp(nil)", mapOp(nil)}, {"funcOp(nil)", funcOp(nil)}}
+		{"mapOp(nil)", mapOp(nil)}, {"funcOp(nil)", funcOp(nil)}, {"zeroOp{}", zeroOp{}}}
 }
 
 // expression constructors (fresh instance per use where identity matters)
@@ -63,6 +63,8 @@ func c06Expressions() []struct {
 		{"CondAlias(x>y)", func() any { return CondAlias(stackage.Cond("x", stackage.Gt, "y")) }},
 		{"&CondAliasS(x<y)", func() any { a := CondAliasS(stackage.Cond("x", stackage.Lt, "y")); return &a }},
 		// a NOT stack as expression: rendered as the stack renders itself (the word NOT belongs to a parent STACK)
+		// an empty Stack is a Stack (not "no expression"); a complex64 whose parts are no binary fractions
+		{"List()", func() any { return stackage.List() }}, {"complex64(0.1+0.2i)", func() any { return complex64(complex(0.1, 0.2)) }},
 		{"Not(z)", func() any { return stackage.Not().Push("z") }}, {"Not()paren(x=y)", func() any { return stackage.Not().SetParen(true).Push(stackage.Cond("x", stackage.Eq, "y")) }},
 	}
 }
@@ -392,6 +394,10 @@ func c06Machine(c *Ctx, variant ...string) *Machine[*condInst] {
 					if strings.HasPrefix(str, "(") && strings.HasSuffix(str, ")") && !strings.HasPrefix(want, "(") {
 						par = true
 					}
+				}
+				if par && in.paren {
+					// normParen trims; an expression that renders as nothing leaves a trailing blank
+					want = strings.TrimSpace(want)
 				}
 				if core != want || par != in.paren {
 					bad("String:"+cls, "String()=%q want %q parenthesised=%v (kw %q op %v ex %v enc %q nopad %v)", str, want, in.paren, in.kw, in.op, in.ex, in.enc, in.nspad)
